@@ -12,6 +12,13 @@ Proof.
   apply andb_true_iff in H. destruct H as [H1 H2]. apply str_eqb_eq in H1. f_equal; auto.
 Qed.
 
+Lemma str_eqb_sym a b : str_eqb a b = str_eqb b a.
+Proof.
+  destruct (str_eqb a b) eqn:E.
+  - apply str_eqb_eq in E. subst. symmetry. apply str_eqb_refl.
+  - destruct (str_eqb b a) eqn:E'; [|reflexivity]. apply str_eqb_eq in E'. subst. rewrite str_eqb_refl in E. discriminate.
+Qed.
+
 Lemma key_eqb_sym a b : key_eqb a b = key_eqb b a.
 Proof.
   destruct (key_eqb a b) eqn:E.
@@ -75,8 +82,159 @@ Proof.
   destruct (str_eqb (cname x) (cname y)) eqn:E'; [|reflexivity]. apply str_eqb_eq in E'. rewrite E' in E. rewrite str_eqb_refl in E. discriminate.
 Qed.
 
+
+(* ------------------------------------------------------------------ re-keyed side tables (renames) *)
+Lemma str_eqb_spec a b : reflect (a = b) (str_eqb a b).
+Proof.
+  destruct (str_eqb a b) eqn:E; constructor; [apply str_eqb_eq; exact E|apply str_eqb_neq; exact E].
+Qed.
+Lemma key_eqb_spec a b : reflect (a = b) (key_eqb a b).
+Proof.
+  destruct (key_eqb a b) eqn:E; constructor; [apply key_eqb_eq; exact E|].
+  intros ->. rewrite key_eqb_refl in E. discriminate.
+Qed.
+
+Lemma key_eqb_app a : forall b s t, length a = length b -> key_eqb (a ++ s) (b ++ t) = key_eqb a b && key_eqb s t.
+Proof.
+  induction a as [|p a IH]; intros [|q b] s t H; cbn in H; try discriminate; cbn; [reflexivity|].
+  rewrite IH by lia. rewrite andb_assoc. reflexivity.
+Qed.
+
+Lemma split3 (k : key) suf : length k = 3%nat -> firstn 3 (k ++ suf) = k /\ skipn 3 (k ++ suf) = suf.
+Proof. intros H. destruct k as [|a [|b [|e [|? ?]]]]; cbn in H; try discriminate. split; reflexivity. Qed.
+
+Lemma of_table_app k k' suf : length k' = 3%nat -> of_table k (k' ++ suf) = key_eqb k' k.
+Proof. intros H. unfold of_table. rewrite (proj1 (split3 k' suf H)). reflexivity. Qed.
+
+Lemma lookup_rekey_eq {X} f (m : amap X) x y :
+  (forall p, In p m -> key_eqb (f (fst p)) x = key_eqb (fst p) y) -> lookup (rekey f m) x = lookup m y.
+Proof.
+  induction m as [|[k v] m IH]; intros H; cbn; [reflexivity|].
+  pose proof (H (k, v) (or_introl eq_refl)) as Hh. cbn [fst] in Hh. rewrite Hh. destruct (key_eqb k y); [reflexivity|].
+  apply IH. intros p Hp. apply H. right. exact Hp.
+Qed.
+
+Lemma lookup_rekey_none {X} f (m : amap X) x :
+  (forall p, In p m -> key_eqb (f (fst p)) x = false) -> lookup (rekey f m) x = None.
+Proof.
+  induction m as [|[k v] m IH]; intros H; cbn; [reflexivity|].
+  pose proof (H (k, v) (or_introl eq_refl)) as Hh. cbn [fst] in Hh. rewrite Hh. apply IH. intros p Hp. apply H. right. exact Hp.
+Qed.
+
+Lemma in_remove_if {X} P (m : amap X) p : In p (remove_if P m) -> P (fst p) = false.
+Proof. unfold remove_if. intros H. apply filter_In in H. destruct H as [_ H]. apply negb_true_iff in H. exact H. Qed.
+
+(* UPDATE _fs_columns_ext SET ext_column_name = c' WHERE ... = c, after deleting any row of c' *)
+Lemma lookup_recol k c c' (m : amap Z) k2 x : length k = 3%nat -> length k2 = 3%nat -> c <> c' ->
+  lookup (rekey (recol k c c') (remove_if (key_eqb (k ++ [c'])) m)) (k2 ++ [x]) =
+  if key_eqb k k2 then (if str_eqb x c' then lookup m (k ++ [c]) else if str_eqb x c then None else lookup m (k2 ++ [x]))
+  else lookup m (k2 ++ [x]).
+Proof.
+  intros Hk Hk2 Hcc.
+  assert (App : forall (a b : key) (u v : str), length a = 3%nat -> length b = 3%nat -> a ++ [u] = b ++ [v] -> a = b /\ u = v).
+  { intros a b u v Ha Hb E. apply app_inj_tail in E. exact E. }
+  destruct (key_eqb_spec k k2) as [<-|Nk].
+  - destruct (str_eqb_spec x c') as [->|Nx'].
+    + rewrite (lookup_rekey_eq _ _ _ (k ++ [c])).
+      * rewrite lookup_remove_if. destruct (key_eqb_spec (k ++ [c']) (k ++ [c])) as [E|_]; [|reflexivity].
+        apply App in E; try assumption. destruct E as [_ E]. congruence.
+      * intros p Hp. apply in_remove_if in Hp. unfold recol.
+        destruct (key_eqb_spec (fst p) (k ++ [c])) as [E|N]; [apply key_eqb_refl|].
+        destruct (key_eqb_spec (fst p) (k ++ [c'])) as [E|_]; [|reflexivity].
+        rewrite E, key_eqb_refl in Hp. discriminate.
+    + destruct (str_eqb_spec x c) as [->|Nx].
+      * apply lookup_rekey_none. intros p Hp. unfold recol.
+        destruct (key_eqb_spec (fst p) (k ++ [c])) as [E|N].
+        -- destruct (key_eqb_spec (k ++ [c']) (k ++ [c])) as [E'|_]; [|reflexivity].
+           apply App in E'; try assumption. destruct E' as [_ E']. congruence.
+        -- destruct (key_eqb_spec (fst p) (k ++ [c])); [contradiction|reflexivity].
+      * rewrite (lookup_rekey_eq _ _ _ (k ++ [x])).
+        -- rewrite lookup_remove_if. destruct (key_eqb_spec (k ++ [c']) (k ++ [x])) as [E|_]; [|reflexivity].
+           apply App in E; try assumption. destruct E as [_ E]. congruence.
+        -- intros p Hp. unfold recol. destruct (key_eqb_spec (fst p) (k ++ [c])) as [E|N]; [|reflexivity].
+           rewrite E. destruct (key_eqb_spec (k ++ [c']) (k ++ [x])) as [E1|_].
+           ++ apply App in E1; try assumption. destruct E1 as [_ E1]. congruence.
+           ++ destruct (key_eqb_spec (k ++ [c]) (k ++ [x])) as [E2|_]; [|reflexivity].
+              apply App in E2; try assumption. destruct E2 as [_ E2]. congruence.
+  - rewrite (lookup_rekey_eq _ _ _ (k2 ++ [x])).
+    + rewrite lookup_remove_if. destruct (key_eqb_spec (k ++ [c']) (k2 ++ [x])) as [E|_]; [|reflexivity].
+      apply App in E; try assumption. destruct E as [E _]. contradiction.
+    + intros p Hp. unfold recol. destruct (key_eqb_spec (fst p) (k ++ [c])) as [E|N]; [|reflexivity].
+      rewrite E. destruct (key_eqb_spec (k ++ [c']) (k2 ++ [x])) as [E1|_].
+      * apply App in E1; try assumption. destruct E1 as [E1 _]. contradiction.
+      * destruct (key_eqb_spec (k ++ [c]) (k2 ++ [x])) as [E2|_]; [|reflexivity].
+        apply App in E2; try assumption. destruct E2 as [E2 _]. contradiction.
+Qed.
+
+(* UPDATE ... SET ext_table_name = k' WHERE ... = k, after deleting the rows of k'; suf = [] (comments) or [column] *)
+Lemma eq_app_of_table (key' a : key) suf : length a = 3%nat -> key' = a ++ suf -> of_table a key' = true.
+Proof. intros Ha ->. rewrite of_table_app by exact Ha. apply key_eqb_refl. Qed.
+
+Lemma lookup_retable {X} k k' (m : amap X) k2 suf : length k = 3%nat -> length k' = 3%nat -> length k2 = 3%nat -> k <> k' ->
+  lookup (rekey (retable k k') (remove_if (of_table k') m)) (k2 ++ suf) =
+  if key_eqb k' k2 then lookup m (k ++ suf) else if key_eqb k k2 then None else lookup m (k2 ++ suf).
+Proof.
+  intros Hk Hk' Hk2 Hne.
+  assert (Dec : forall key', of_table k key' = true -> key' = k ++ skipn 3 key').
+  { intros key' H. unfold of_table in H. apply key_eqb_eq in H. rewrite <- H at 1. symmetry. apply firstn_skipn. }
+  destruct (key_eqb_spec k' k2) as [<-|N'].
+  - rewrite (lookup_rekey_eq _ _ _ (k ++ suf)).
+    + rewrite lookup_remove_if, of_table_app by exact Hk. destruct (key_eqb_spec k k'); [contradiction|reflexivity].
+    + intros p Hp. apply in_remove_if in Hp. unfold retable. destruct (of_table k (fst p)) eqn:Ot.
+      * rewrite (Dec _ Ot) at 2. rewrite !key_eqb_app by congruence. rewrite !key_eqb_refl. reflexivity.
+      * destruct (key_eqb_spec (fst p) (k' ++ suf)) as [E|_].
+        -- rewrite (eq_app_of_table _ _ _ Hk' E) in Hp. discriminate.
+        -- destruct (key_eqb_spec (fst p) (k ++ suf)) as [E|_]; [|reflexivity].
+           rewrite (eq_app_of_table _ _ _ Hk E) in Ot. discriminate.
+  - destruct (key_eqb_spec k k2) as [<-|N].
+    + apply lookup_rekey_none. intros p Hp. unfold retable. destruct (of_table k (fst p)) eqn:Ot.
+      * rewrite key_eqb_app by congruence. destruct (key_eqb_spec k' k); [congruence|reflexivity].
+      * destruct (key_eqb_spec (fst p) (k ++ suf)) as [E|_]; [|reflexivity].
+        rewrite (eq_app_of_table _ _ _ Hk E) in Ot. discriminate.
+    + rewrite (lookup_rekey_eq _ _ _ (k2 ++ suf)).
+      * rewrite lookup_remove_if, of_table_app by exact Hk2. destruct (key_eqb_spec k2 k'); [congruence|reflexivity].
+      * intros p Hp. unfold retable. destruct (of_table k (fst p)) eqn:Ot; [|reflexivity].
+        rewrite key_eqb_app by congruence. destruct (key_eqb_spec k' k2); [contradiction|]. cbn.
+        destruct (key_eqb_spec (fst p) (k2 ++ suf)) as [E|_]; [|reflexivity].
+        rewrite E, of_table_app in Ot by exact Hk2. apply key_eqb_eq in Ot. congruence.
+Qed.
+
+(* ------------------------------------------------------------------ dropped / renamed columns in the declarations *)
+Lemma find_col_drop cols c x : find_col (filter (fun y => negb (str_eqb (cname y) c)) cols) x =
+  if str_eqb x c then None else find_col cols x.
+Proof.
+  unfold find_col. induction cols as [|y r IH]; cbn; [destruct (str_eqb x c); reflexivity|].
+  destruct (str_eqb_spec (cname y) c) as [E|N]; cbn.
+  - rewrite IH. destruct (str_eqb_spec x c) as [_|Nx]; [reflexivity|].
+    destruct (str_eqb_spec (cname y) x); [congruence|reflexivity].
+  - destruct (str_eqb_spec (cname y) x) as [E|Nx].
+    + destruct (str_eqb_spec x c); [congruence|reflexivity].
+    + exact IH.
+Qed.
+
 Definition text_len (o : option coldef) : option Z :=
   match o with Some {| cty := TText d |} => Some (dflt d) | _ => None end.
+
+Lemma find_col_rename cols c c' x : find_col cols c' = None ->
+  text_len (find_col (rename_col cols c c') x) =
+  if str_eqb x c' then text_len (find_col cols c) else if str_eqb x c then None else text_len (find_col cols x).
+Proof.
+  unfold find_col, rename_col. induction cols as [|y r IH]; cbn; intros H.
+  - destruct (str_eqb x c'); [reflexivity|]. destruct (str_eqb x c); reflexivity.
+  - destruct (str_eqb_spec (cname y) c') as [E|Nc']; [discriminate|]. specialize (IH H).
+    destruct (str_eqb_spec (cname y) c) as [Ec|Nc]; cbn.
+    + destruct (str_eqb_spec c' x) as [<-|Nx].
+      * destruct (str_eqb_spec c' c'); [|congruence]. destruct y as [n [d|z]]; reflexivity.
+      * rewrite IH. destruct (str_eqb_spec x c'); [congruence|].
+        destruct (str_eqb_spec x c) as [_|Nxc]; [reflexivity|].
+        destruct (str_eqb_spec (cname y) x); [congruence|reflexivity].
+    + destruct (str_eqb_spec (cname y) x) as [Ex|Nx].
+      * destruct (str_eqb_spec x c'); [congruence|]. destruct (str_eqb_spec x c); [congruence|reflexivity].
+      * exact IH.
+Qed.
+
+Lemma len_spec_alt st k c : len_spec st k c = match lookup (live st) k with Some t => text_len (find_col (tcols t) c) | None => None end.
+Proof. reflexivity. Qed.
 
 Lemma put_lengths_cons k x r base : put_lengths k (x :: r) base =
   match cty x with TText d => upsert (put_lengths k r base) (k ++ [cname x]) (dflt d) | TOther _ => put_lengths k r base end.
@@ -108,20 +266,19 @@ Qed.
 (* ------------------------------------------------------------------ the invariant: side tables = function of the declarations *)
 Definition Inv (st : state) : Prop :=
   (forall k, length k = 3%nat -> comment_fake st k = comment_spec st k) /\
-  (forall k c, length k = 3%nat -> len_fake st k c = len_spec st k c) /\
-  (forall k t, lookup (live st) k = Some t -> nodup_names (tcols t) = true).
+  (forall k c, length k = 3%nat -> len_fake st k c = len_spec st k c).
 
 Lemma inv_init : Inv init.
-Proof. repeat split; intros; try reflexivity. discriminate. Qed.
+Proof. split; intros; reflexivity. Qed.
 
 Lemma inv_step st o : Inv st -> dom_at st o = true -> Inv (step st o).
 Proof.
-  intros (I1 & I2 & I3) D. destruct o as [rep k cols cm|k|d s|k c|k col|k c|k c c'|k k'|k src]; cbn in D; try discriminate; cbn [step].
+  intros (I1 & I2) D. destruct o as [rep k cols cm|k|d s|k c|k col|k c|k c c'|k k'|k src]; cbn in D; cbn [step].
   - (* CREATE [OR REPLACE] TABLE *)
     apply Nat.eqb_eq in D.
-    destruct (negb (nodup_names cols) || match lookup (live st) k with Some _ => negb rep | None => false end) eqn:G; [repeat split; assumption|].
+    destruct (negb (nodup_names cols) || match lookup (live st) k with Some _ => negb rep | None => false end) eqn:G; [split; assumption|].
     apply orb_false_iff in G. destruct G as [G1 G2]. apply negb_false_iff in G1.
-    unfold Inv, comment_fake, comment_spec, len_fake, len_spec. cbn [live side_c side_l]. repeat split.
+    unfold Inv, comment_fake, comment_spec, len_fake, len_spec. cbn [live side_c side_l]. split.
     + intros k' Hk'.
       assert (B : lookup (if rep then remove_if (of_table k) (side_c st) else side_c st) k' =
                   if key_eqb k k' then None else lookup (side_c st) k').
@@ -144,31 +301,26 @@ Proof.
       rewrite B. destruct (key_eqb k k') eqn:E.
       * cbn [tcols]. unfold text_len. destruct (find_col cols c) as [[n [d|z]]|]; reflexivity.
       * apply (I2 k' c Hk').
-    + intros k' t. rewrite lookup_upsert. destruct (key_eqb k k'); [intros H; injection H as <-; exact G1|apply I3].
   - (* DROP TABLE *)
     apply Nat.eqb_eq in D. destruct (lookup (live st) k) eqn:Lk; [|repeat split; assumption].
-    unfold Inv, comment_fake, comment_spec, len_fake, len_spec. cbn [live side_c side_l]. repeat split.
+    unfold Inv, comment_fake, comment_spec, len_fake, len_spec. cbn [live side_c side_l]. split.
     + intros k' Hk'. rewrite !lookup_remove_if, of_table_3 by exact Hk'. destruct (key_eqb k k'); [reflexivity|apply (I1 k' Hk')].
     + intros k' c Hk'. rewrite !lookup_remove_if, of_table_4 by exact Hk'. destruct (key_eqb k k'); [reflexivity|apply (I2 k' c Hk')].
-    + intros k' t'. rewrite lookup_remove_if. destruct (key_eqb k k'); [discriminate|apply I3].
   - (* DROP SCHEMA *)
-    unfold Inv, comment_fake, comment_spec, len_fake, len_spec. cbn [live side_c side_l]. repeat split.
+    unfold Inv, comment_fake, comment_spec, len_fake, len_spec. cbn [live side_c side_l]. split.
     + intros k' Hk'. rewrite !lookup_remove_if. destruct (of_schema d s k'); [reflexivity|apply (I1 k' Hk')].
     + intros k' c Hk'. rewrite !lookup_remove_if, of_schema_4 by exact Hk'. destruct (of_schema d s k'); [reflexivity|apply (I2 k' c Hk')].
-    + intros k' t'. rewrite lookup_remove_if. destruct (of_schema d s k'); [discriminate|apply I3].
   - (* COMMENT on an existing table *)
     apply andb_true_iff in D. destruct D as [D L]. apply Nat.eqb_eq in D.
     destruct (lookup (live st) k) as [t|] eqn:Lk; [|discriminate].
-    unfold Inv, comment_fake, comment_spec, len_fake, len_spec. cbn [live side_c side_l]. repeat split.
+    unfold Inv, comment_fake, comment_spec, len_fake, len_spec. cbn [live side_c side_l]. split.
     + intros k' Hk'. rewrite !lookup_upsert. destruct (key_eqb k k'); [reflexivity|apply (I1 k' Hk')].
     + intros k' c' Hk'. rewrite lookup_upsert. destruct (key_eqb k k') eqn:E; [|apply (I2 k' c' Hk')].
       apply key_eqb_eq in E. subst k'. specialize (I2 k c' D). unfold len_fake, len_spec in I2. rewrite I2, Lk. reflexivity.
-    + intros k' t'. rewrite lookup_upsert. destruct (key_eqb k k') eqn:E; [|apply I3].
-      intros H. injection H as <-. cbn. apply (I3 k t Lk).
   - (* ADD COLUMN *)
     apply Nat.eqb_eq in D. destruct (lookup (live st) k) as [t|] eqn:Lk; [|repeat split; assumption].
-    destruct (find_col (tcols t) (cname col)) eqn:F; [repeat split; assumption|].
-    unfold Inv, comment_fake, comment_spec, len_fake, len_spec. cbn [live side_c side_l]. repeat split.
+    destruct (find_col (tcols t) (cname col)) eqn:F; [split; assumption|].
+    unfold Inv, comment_fake, comment_spec, len_fake, len_spec. cbn [live side_c side_l]. split.
     + intros k' Hk'. rewrite lookup_upsert. destruct (key_eqb k k') eqn:E; [|apply (I1 k' Hk')].
       apply key_eqb_eq in E. subst k'. specialize (I1 k D). unfold comment_fake, comment_spec in I1. rewrite I1, Lk. reflexivity.
     + intros k' c Hk'. assert (N : nodup_names [col] = true) by reflexivity.
@@ -180,8 +332,50 @@ Proof.
       * apply str_eqb_eq in Ec. subst c. rewrite F. rewrite F in I2. unfold text_len.
         destruct col as [n [d|z]]; cbn; [reflexivity|exact I2].
       * cbn [text_len]. rewrite I2. destruct (find_col (tcols t) c) as [[n [d|z]]|]; reflexivity.
-    + intros k' t'. rewrite lookup_upsert. destruct (key_eqb k k') eqn:E; [|apply I3].
-      intros H. injection H as <-. cbn. apply nodup_app_last; [apply (I3 k t Lk)|exact F].
+  - (* DROP COLUMN *)
+    apply Nat.eqb_eq in D. destruct (lookup (live st) k) as [t|] eqn:Lk; [|split; assumption].
+    destruct (find_col (tcols t) c) eqn:F; [|split; assumption].
+    destruct (Nat.leb (length (tcols t)) 1); [split; assumption|].
+    unfold Inv, comment_fake, comment_spec. split.
+    + intros k' Hk'. cbn [live side_c]. rewrite lookup_upsert. destruct (key_eqb k k') eqn:E; [|apply (I1 k' Hk')].
+      apply key_eqb_eq in E. subst k'. specialize (I1 k D). unfold comment_fake, comment_spec in I1. rewrite I1, Lk. reflexivity.
+    + intros k' x Hk'. rewrite len_spec_alt. unfold len_fake. cbn [live side_l]. rewrite lookup_upsert, lookup_remove_if.
+      rewrite key_eqb_app_last by congruence. specialize (I2 k' x Hk'). rewrite len_spec_alt in I2. unfold len_fake in I2.
+      destruct (key_eqb k k') eqn:E; cbn [andb]; [|exact I2].
+      apply key_eqb_eq in E. subst k'. cbn [tcols]. rewrite find_col_drop. rewrite Lk in I2.
+      rewrite (str_eqb_sym c x). destruct (str_eqb x c); [reflexivity|exact I2].
+  - (* RENAME COLUMN *)
+    apply Nat.eqb_eq in D. destruct (lookup (live st) k) as [t|] eqn:Lk; [|split; assumption].
+    destruct (find_col (tcols t) c) eqn:F; [|split; assumption].
+    destruct (find_col (tcols t) c') eqn:F'; [split; assumption|].
+    assert (Ncc : c <> c') by (intros ->; congruence).
+    unfold Inv, comment_fake, comment_spec. split.
+    + intros k' Hk'. cbn [live side_c]. rewrite lookup_upsert. destruct (key_eqb k k') eqn:E; [|apply (I1 k' Hk')].
+      apply key_eqb_eq in E. subst k'. specialize (I1 k D). unfold comment_fake, comment_spec in I1. rewrite I1, Lk. reflexivity.
+    + intros k' x Hk'. rewrite len_spec_alt. unfold len_fake. cbn [live side_l]. rewrite lookup_upsert.
+      rewrite (lookup_recol k c c' _ k' x D Hk' Ncc).
+      pose proof (I2 k' x Hk') as J. rewrite len_spec_alt in J. unfold len_fake in J.
+      destruct (key_eqb k k') eqn:E; [|exact J].
+      apply key_eqb_eq in E. subst k'. cbn [tcols]. rewrite (find_col_rename _ c c' x F').
+      pose proof (I2 k c D) as Jc. rewrite len_spec_alt in Jc. unfold len_fake in Jc. rewrite Lk in Jc, J.
+      destruct (str_eqb x c'); [exact Jc|]. destruct (str_eqb x c); [reflexivity|exact J].
+  - (* RENAME TO *)
+    apply andb_true_iff in D. destruct D as [D _]. apply andb_true_iff in D. destruct D as [D D']. apply Nat.eqb_eq in D, D'.
+    destruct (lookup (live st) k) as [t|] eqn:Lk; [|split; assumption].
+    destruct (lookup (live st) k') eqn:Lk'; [split; assumption|].
+    assert (Nkk : k <> k') by (intros ->; congruence).
+    unfold Inv, comment_fake, comment_spec. split.
+    + intros k2 Hk2. cbn [live side_c]. rewrite lookup_upsert, lookup_remove_if.
+      pose proof (lookup_retable k k' (side_c st) k2 [] D D' Hk2 Nkk) as R. rewrite !app_nil_r in R. rewrite R.
+      destruct (key_eqb k' k2) eqn:E.
+      * specialize (I1 k D). unfold comment_fake, comment_spec in I1. rewrite I1, Lk. reflexivity.
+      * destruct (key_eqb k k2); [reflexivity|apply (I1 k2 Hk2)].
+    + intros k2 x Hk2. rewrite len_spec_alt. unfold len_fake. cbn [live side_l]. rewrite lookup_upsert, lookup_remove_if.
+      rewrite (lookup_retable k k' (side_l st) k2 [x] D D' Hk2 Nkk).
+      destruct (key_eqb k' k2) eqn:E.
+      * pose proof (I2 k x D) as J. rewrite len_spec_alt in J. unfold len_fake in J. rewrite Lk in J. exact J.
+      * destruct (key_eqb k k2); [reflexivity|]. pose proof (I2 k2 x Hk2) as J. rewrite len_spec_alt in J. exact J.
+  - (* CLONE: outside dom *) discriminate.
 Qed.
 
 Lemma inv_from h : forall st, Inv st -> dom_from st h = true -> Inv (fold_left step h st).
@@ -200,7 +394,7 @@ Theorem metadata_exact_partial_l : forall h, dom h = true -> forall k, length k 
   (forall c, len_fake (run h) k c = len_spec (run h) k c) /\
   describe_fake (run h) k = describe_spec (run h) k.
 Proof.
-  intros h D k Hk. destruct (inv_from h init inv_init D) as (I1 & I2 & _). fold (run h) in *.
+  intros h D k Hk. destruct (inv_from h init inv_init D) as (I1 & I2). fold (run h) in *.
   split; [apply I1; exact Hk|]. split; [intros c; apply I2; exact Hk|].
   unfold describe_fake, describe_spec. destruct (lookup (live (run h)) k); [|reflexivity]. cbn.
   f_equal. apply describe_with_ext. intros c. apply I2. exact Hk.
@@ -227,25 +421,14 @@ Arguments vc n%string_scope d.
 Definition ic (n : String.string) : coldef := {| cname := lit n; cty := TOther 1 |}.
 Arguments ic n%string_scope.
 
-Lemma rename_refuted_l : exists h k, describe_fake (run h) k <> describe_spec (run h) k.
-Proof. exists [Create false (K "R1") [vc "V" (Some 7)] None; RenameColumn (K "R1") (lit "V") (lit "W")], (K "R1"). vm_compute. discriminate. Qed.
-
-Lemma rename_table_refuted_l : exists h k, comment_fake (run h) k <> comment_spec (run h) k.
-Proof. exists [Create false (K "R1") [ic "A"] (Some (lit "c")); RenameTable (K "R1") (K "R2"); Create false (K "R1") [ic "A"] None], (K "R1"). vm_compute. discriminate. Qed.
-
 Lemma clone_refuted_l : exists h k, describe_fake (run h) k <> describe_spec (run h) k.
 Proof. exists [Create false (K "C1") [vc "V" (Some 7)] None; Clone (K "C2") (K "C1")], (K "C2"). vm_compute. discriminate. Qed.
-
-Lemma readd_column_refuted_l : exists h k c, len_fake (run h) k c <> len_spec (run h) k c.
-Proof.
-  exists [Create false (K "C1") [vc "V" (Some 7)] None; AddColumn (K "C1") (ic "X"); DropColumn (K "C1") (lit "V"); AddColumn (K "C1") (ic "V")], (K "C1"), (lit "V").
-  vm_compute. discriminate.
-Qed.
 
 Lemma comment_on_missing_refuted_l : exists h k, comment_fake (run h) k <> comment_spec (run h) k.
 Proof. exists [SetComment (K "T9") (lit "x"); Create false (K "T9") [ic "A"] None], (K "T9"). vm_compute. discriminate. Qed.
 
-(* a non-trivial history inside dom: re-creation under the same name, replacement, a dropped schema, added columns *)
+(* a non-trivial history inside dom: re-creation under the same name, replacement, a dropped schema, added, dropped,
+   re-added and renamed columns, a renamed table whose old name is used again *)
 Definition ex_h : list op :=
   [Create false (K "T1") [ic "A"; vc "B" (Some 10); vc "C" None] (Some (lit "first"));
    Drop (K "T1");
@@ -255,10 +438,18 @@ Definition ex_h : list op :=
    Create false [lit "DB1"; lit "S2"; lit "T1"] [vc "B" (Some 5)] (Some (lit "other"));
    DropSchema (lit "DB1") (lit "S2");
    Create false [lit "DB1"; lit "S2"; lit "T1"] [vc "B" None] None;
-   SetComment (K "T1") (lit "last")].
+   SetComment (K "T1") (lit "last");
+   RenameColumn (K "T1") (lit "B") (lit "E");
+   DropColumn (K "T1") (lit "D");
+   AddColumn (K "T1") (ic "D");
+   RenameTable (K "T1") (K "T2");
+   Create false (K "T1") [vc "E" None] None].
 Lemma meta_nonvacuous_l : dom ex_h = true /\
-  comment_fake (run ex_h) (K "T1") = Some (lit "last") /\
-  describe_fake (run ex_h) (K "T1") = Some [(lit "B", inl 3); (lit "D", inl 255)] /\
+  comment_fake (run ex_h) (K "T2") = Some (lit "last") /\
+  describe_fake (run ex_h) (K "T2") = Some [(lit "E", inl 3); (lit "D", inr 1)] /\
+  len_fake (run ex_h) (K "T2") (lit "D") = None /\
+  comment_fake (run ex_h) (K "T1") = None /\
+  describe_fake (run ex_h) (K "T1") = Some [(lit "E", inl 16777216)] /\
   comment_fake (run ex_h) [lit "DB1"; lit "S2"; lit "T1"] = None /\
   describe_fake (run ex_h) [lit "DB1"; lit "S2"; lit "T1"] = Some [(lit "B", inl 16777216)].
 Proof. vm_compute. repeat split. Qed.
